@@ -850,7 +850,7 @@ def use_ids(H):
     H.prove(sum(1 for k in root.iterdescendants() if local(k) == "rect") == 3 and sum(1 for k in root.iterdescendants() if local(k) == "linearGradient") == 4, "use.whole_subtree_is_copied_each_time")
 
 
-@obligation(("C19", "C15", "C02", "C06"), "state.viewbox_is_read_from_the_tree", functions=["svg.SVG.view_box", "svg.SVG.set_attributes", "svg.SVG.remove_attributes"])
+@obligation(("C19", "C15", "C02", "C06", "C04"), "state.viewbox_is_read_from_the_tree", functions=["svg.SVG.view_box", "svg.SVG.set_attributes", "svg.SVG.remove_attributes"])
 def viewbox_fresh(H):
     """view_box() answers for the root element AS IT IS NOW: after the viewBox (or width / height) was changed in place - by
     set_attributes, remove_attributes or directly on the element - the next answer is the new rectangle (a remembered answer
@@ -869,7 +869,8 @@ def viewbox_fresh(H):
         root = svg.svg_root
     first = H.call(SVG.view_box, svg)
     H.prove(first == Rect(0, 0, 100, 100), "viewbox.first_answer")
-    H.call(getattr(type(svg), "tolerance").fget, svg)  # everything that reads the view box on the way
+    tol_of = getattr(type(svg), "tolerance").fget
+    tol_first = H.call(tol_of, svg)  # everything that reads the view box on the way
     if how == "set_attributes":
         _, e = H.catch(SVG.set_attributes, svg, (("viewBox", "20 30 50 40"),), inplace=True)
         want = Rect(20, 30, 50, 40)
@@ -882,3 +883,8 @@ def viewbox_fresh(H):
     H.prove(e is None, "viewbox.edit_succeeds", detail=repr(e))
     got = H.call(SVG.view_box, svg)
     H.prove(got == want, "viewbox.answer_follows_the_tree", detail=f"{got} vs {want}")
+    # the stroker's tolerance is a fixed fraction of the smaller side of the CURRENT view box (a remembered one outlines round caps and
+    # joins of the re-framed document with the precision of the old canvas)
+    tol = H.call(tol_of, svg)
+    ratio = tol_first / 100.0  # min(100, 100) * pct / 100 on the first canvas
+    H.prove(abs(float(tol) - min(want.w, want.h) * ratio) <= 1e-9, "tolerance.follows_the_current_view_box", detail=f"{tol} vs {min(want.w, want.h) * ratio}")
